@@ -53,7 +53,14 @@ if a.keep and ok:
     dst = os.path.join('/verif/seeded', a.keep)
     os.makedirs(dst, exist_ok=True)
     for f in ('patch.diff', 'demo.py'):
-        shutil.copy(os.path.join(d, f), os.path.join(dst, f))
+        if os.path.abspath(d) != os.path.abspath(dst):
+            shutil.copy(os.path.join(d, f), os.path.join(dst, f))
+    if os.path.abspath(d) == os.path.abspath(dst) and meta.get('evaluation'):
+        # re-evaluation after the check was strengthened: keep what the first contact looked like
+        old = meta['evaluation'].get('checks', {})
+        missed = [c for c, v in old.items() if v['exit'] != 1]
+        if missed and not meta.get('history'):
+            meta['history'] = 'missed on first contact by ' + ', '.join(missed) + ' (then strengthened, see section 8)'
     meta['evaluation'] = res
     meta['what_was_run'] = ['git apply patch.diff in a scratch worktree of /repo', 'pytest test (must pass)', 'demo.py /repo (exit 0)', 'demo.py <patched> (exit 1)'] + \
                            ['VERIF_REPO=<patched> ./check %s --tier %s --no-evidence' % (c, a.tier) for c in checks]
